@@ -83,6 +83,7 @@ fn c18_q_hostile_segment_step() {
     assume(n <= 8);
     // data segment (handshake segments are a separate harness)
     assume(n == 0 || data[0] & 0x40 == 0);
+    let pre_free = s.recv_window.buf.free();
     let r = s.process_rx(None, PEER, &data[..n]);
 
     // what the segment says, decoded independently from the flag byte
@@ -105,6 +106,18 @@ fn c18_q_hostile_segment_step() {
             vassert!(inv(&s), "ROLE:btp-inv-preserved-on-accept");
             vassert!(seq == Some(pre_seq.wrapping_add(1)), "ROLE:btp-accepted-segment-has-next-seq");
             vassert!(pre_rl > 0, "ROLE:btp-accept-only-when-recv-window-has-room");
+            // bytes an accepted segment adds to the receive buffer: the 2-byte length prefix of a
+            // new non-empty message + its payload - they must fit into what was free, or the ring
+            // buffer silently drops its oldest bytes (the framing of an unfetched message)
+            let beginning = flags & 0x01 != 0;
+            let (prefix, pstart) = if beginning {
+                let ml = u16::from_le_bytes([data[idx + 1], data[idx + 2]]);
+                (if ml > 0 { 2usize } else { 0 }, idx + 3)
+            } else {
+                (0usize, idx + 1)
+            };
+            let pushed = prefix + n.saturating_sub(pstart);
+            vassert!(pre_free >= pushed, "ROLE:btp-accepted-segment-fits-the-receive-buffer");
             vassert!(s.recv_window.level == pre_rl - 1 && s.recv_window.ack_level == pre_al + 1, "ROLE:btp-accept-consumes-one-slot");
             if let Some(a) = ack {
                 let outstanding = ws - pre_sl;
